@@ -1,7 +1,21 @@
 """C51 — DirDBM crash safety: the real DirDBM over the crash-able in-memory filesystem (harness/lib/fsim.py),
 killed at every primitive (and every partial write length) of random operation sequences, with nested
-crashes inside the recovery of DirDBM.__init__, vs the Lean model; + the property oracle."""
+crashes inside the recovery of DirDBM.__init__, vs the Lean model; + the property oracle.
+
+Case language (a JSON dict):
+  {"pre": [[ext, keyhex, valuehex], …], "procs": [{"ops": [op, …], "cut": [k, p] | None}, …],
+   "dir": name of the database directory (default "db"), "cls": "Shelf" (default DirDBM)}
+  op = ["set", k, v] | ["del", k] | ["sdf", k, v] (setdefault) | ["upd", [[k, v], …]] (update) | ["clr"] (clear)
+     | ["setf", k, v, p, Exc]   a set whose _writeFile raises Exc after p bytes reached the file — NOT a crash:
+                                the process lives on and performs its following operations
+  {"enc": keyhex}               the key → file name encoding alone
+"""
 import base64
+import errno
+import fnmatch
+import glob as _glob
+import pickle
+import posixpath
 
 from twisted.persisted import dirdbm
 from twisted.python import filepath
@@ -9,31 +23,49 @@ from twisted.python import filepath
 from lib import fsim
 
 HEADLINE = "TwistedProps.C51.crash_consistent"
-RULE = ("a case = initial directory + a list of processes; every process opens the DirDBM (recovery), performs its "
-        "set/replace/delete operations and is killed at one cut (k primitives, p bytes of a partial write) — for a "
+RULE = ("a case = database directory name + initial directory + a list of processes; every process opens the DirDBM "
+        "(recovery), performs its operations and is killed at one cut (k primitives, p bytes of a partial write) — for a "
         "generated operation sequence EVERY cut is a case, and for every crash state every cut of the following "
-        "recovery (nested crashes) too; keys from a small pool incl. the empty key, long keys (>57 bytes: multi-line "
-        "base64) and keys whose encoding contains '/' and '+'; distinct = (kind of op hit, cut position in it, "
-        "old value present?, value empty?, nested recovery cuts, key class)")
+        "recovery (nested crashes) too.  Operations: set / replace / delete through __setitem__/__delitem__, and the "
+        "same through setdefault, update, clear and the Shelf subclass (pickled values); sets whose write FAILS with an "
+        "exception (OSError ENOSPC, KeyboardInterrupt) after p bytes while the process lives on (often followed by a "
+        "delete of the same key).  Keys from a pool incl. the empty key, long keys (>57 bytes: multi-line base64), keys "
+        "whose encoding contains '/' and '+', and families whose file names are prefixes of each other (K*57, K*57+x, "
+        "K*114, …); values incl. empty and large ones around io.DEFAULT_BUFFER_SIZE (8191…8193, 20000, 65537); directory "
+        "names incl. glob metacharacters ([, ], *, ?); separately the key→file-name encoding on structured random keys "
+        "(lengths around multiples of 3 and 57, bytes giving '+' and '/').  distinct = (kind of op hit, cut position in "
+        "it, old value present?, value empty/large?, nested recovery cuts, key class, directory class, class)")
 ASSUMES = ["POSIX: rename()/remove() are atomic, rename replaces the destination (the statement's assumption)",
            "process crash, not power loss: bytes handed to the OS survive, user-space buffers are lost",
            "only files created by DirDBM itself live in its directory (module docstring); one process at a time",
-           "key file names fit the filesystem's name limit (not modelled by fsim)"]
+           "key file names fit the filesystem's name limit (not modelled by fsim)",
+           "a failing write is injected only inside _writeFile (the step __setitem__ guards with a handler), as an "
+           "exception raised by the flush after p bytes; failures of open/remove/rename are not injected"]
 TRUSTED = ["harness/lib/fsim.py (in-memory filesystem the real code is redirected to; crash = cut of its primitive log; "
-           "glob/listdir return sorted names)"]
+           "listdir returns sorted names)",
+           "the glob stand-in of this module (glob.glob semantics incl. metacharacters in the directory part, sorted; "
+           "glob.escape is the real one)"]
 MANIFEST = {
     "text": "Lean theorems (TwistedProps/C51.lean) over the crash-able filesystem model: for every clean database state, "
             "every operation and every cut (k, p) of its primitive trace, and every sequence of nested cuts of the "
             "recovery run by DirDBM.__init__, the recovered database maps every other key to its last completed value "
             "and the interrupted key to its old or its new value, and contains no file that is not the encoding of a key; "
-            "key encoding proved injective and dot-free; model tied to dirdbm.py by killing the real DirDBM at every "
-            "primitive over fsim.",
+            "key encoding proved injective and dot-free; a set whose write fails restores the directory exactly and every "
+            "crash state inside it is a crash state of the plain set; setdefault/update/clear are sequences of sets and "
+            "deletes; model tied to dirdbm.py by killing the real DirDBM (and Shelf) at every primitive over fsim, for "
+            "directory names with glob metacharacters, prefix-related key names, large values and failing writes.",
     "note": "trusts Lean kernel, hand model of DirDBM (tied at every cut), fsim.py, POSIX rename/remove atomicity",
     "technique": "Lean 4 proof (invariant over crash states + recovery) + differential tie at every crash point",
     "design_ref": "DESIGN.md §7.7 C51",
 }
 
-D = fsim.ROOT + "/db"
+
+def _D(c):
+    return fsim.ROOT + "/" + c.get("dir", "db")
+
+
+def _cls(c):
+    return dirdbm.Shelf if c.get("cls") == "Shelf" else dirdbm.DirDBM
 
 
 def hx(b):
@@ -46,22 +78,36 @@ def enc(k):
     return (base64.encodebytes(k) or b"\n").replace(b"\n", b"_").replace(b"/", b"-").decode()
 
 
+def stored(c, v):
+    """bytes of the entry file for value v (Shelf pickles)"""
+    return pickle.dumps(v) if c.get("cls") == "Shelf" else v
+
+
 def show_state(snap):
     if not snap:
         return "."
     return ",".join(f"{hx(n.encode())}={hx(c)}" for n, c in sorted(snap.items(), key=lambda kv: kv[0].encode()))
 
 
+def op_keys(op):
+    if op[0] == "upd":
+        return [kv[0] for kv in op[1]]
+    if op[0] == "clr":
+        return []
+    return [op[1]]
+
+
 def universe(c):
     ks = {e[1] for e in c["pre"]}
     for pr in c["procs"]:
         for op in pr["ops"]:
-            ks.add(op[1])
+            ks.update(op_keys(op))
     return sorted(ks, key=bytes.fromhex)
 
 
 def pre_files(c):
-    return {enc(bytes.fromhex(e[1])) + e[0]: bytes.fromhex(e[2]) for e in c["pre"]}
+    return {enc(bytes.fromhex(e[1])) + e[0]: (stored(c, bytes.fromhex(e[2])) if not e[0] else bytes.fromhex(e[2]))
+            for e in c["pre"]}
 
 
 def _cut(cut):
@@ -72,40 +118,156 @@ def _key(h):
     return h if h else "-"
 
 
+def _val(c, h):
+    return hx(stored(c, bytes.fromhex(h)))
+
+
+def _op_line(c, o):
+    kind = o[0]
+    if kind == "set":
+        return f"s:{_key(o[1])}:{_val(c, o[2])}"
+    if kind == "del":
+        return f"d:{_key(o[1])}"
+    if kind == "sdf":
+        return f"sd:{_key(o[1])}:{_val(c, o[2])}"
+    if kind == "setf":
+        return f"f:{_key(o[1])}:{_val(c, o[2])}:{int(o[3])}:{o[4]}"
+    if kind == "upd":
+        return "u:" + "+".join(f"{_key(k)}:{_val(c, v)}" for k, v in o[1])
+    if kind == "clr":
+        return "c"
+    raise ValueError(kind)
+
+
 def model_line(c):
+    if "enc" in c:
+        return "enc " + _key(c["enc"])
     procs = []
     for pr in c["procs"]:
-        ops = ";".join(f"s:{_key(o[1])}:{_key(o[2])}" if o[0] == "set" else f"d:{_key(o[1])}" for o in pr["ops"]) or "."
+        ops = ";".join(_op_line(c, o) for o in pr["ops"]) or "."
         procs.append(ops + "@" + _cut(pr["cut"]))
     keys = ",".join(_key(k) for k in universe(c)) or "."
     return " ".join(["run", show_state(pre_files(c)), keys, "/".join(procs)])
 
 
+# ---------------------------------------------------------------------------------------------
+# the filesystem the real code runs on: fsim + a failing write + glob with real directory-part semantics
+
+EXCS = {"OSError": lambda: OSError(errno.ENOSPC, "No space left on device"),
+        "KeyboardInterrupt": lambda: KeyboardInterrupt()}
+
+
+class FaultFS(fsim.FSim):
+    """fsim + one armed *failure* (not a crash): the next write primitive hands only its first p bytes to the OS and
+    then raises the armed exception; the process lives on (its handlers run)."""
+    fault = None       # (p, exception instance)
+
+    def _prim_write(self, f, data):
+        if self.fault is not None and not self.dead:
+            p, exc = self.fault
+            self.fault = None
+            if p > 0:
+                super()._prim_write(f, data[:p])      # a primitive like any other (a crash cut may fall in it)
+            f.buf.clear()                             # what did not reach the OS is lost with the failed file object
+            raise exc
+        return super()._prim_write(f, data)
+
+
+class Glob:
+    """glob.glob over the simulated filesystem with the semantics of the real one for a pattern `<dir>/<base>`:
+    metacharacters in the last component of <dir> are honoured too (fsim.glob takes <dir> literally); sorted."""
+
+    def __init__(self, fs):
+        self.fs = fs
+        self.escape = _glob.escape
+        self.has_magic = _glob.has_magic
+
+    def glob(self, pattern, **kw):
+        fs = self.fs
+        fs._read()
+        isb = isinstance(pattern, bytes)
+        pat = pattern.decode("utf-8", "surrogateescape") if isb else pattern
+        d, base = posixpath.split(pat)
+        if _glob.has_magic(d):
+            parent, dbase = posixpath.split(d)
+            assert not _glob.has_magic(parent)
+            dirs = [posixpath.join(parent, n) for n in fs._children(fs.P(parent))
+                    if posixpath.join(fs.P(parent), n) in fs.dirs and fnmatch.fnmatchcase(n, dbase)]
+        else:
+            dirs = [d]
+        out = []
+        for dd in dirs:
+            dp = fs.P(dd)
+            if dp not in fs.dirs:
+                continue
+            if not _glob.has_magic(base):
+                if fs.exists(posixpath.join(dp, base)):
+                    out.append(posixpath.join(dd, base))
+                continue
+            for n in fs._children(dp):
+                if n.startswith(".") and not base.startswith("."):
+                    continue
+                if fnmatch.fnmatchcase(n, base):
+                    out.append(posixpath.join(dd, n))
+        return [x.encode("utf-8", "surrogateescape") for x in out] if isb else out
+
+
+def _patched(fs):
+    return fsim.patched(fs, filepath, dirdbm, extra=[(dirdbm, "glob", Glob(fs))])
+
+
 def _mkfs(c):
-    fs = fsim.FSim()
+    fs = FaultFS()
+    D = _D(c)
     fs.makedirs(D)
     for n, v in pre_files(c).items():
         fs.put(D + "/" + n, v)
     return fs
 
 
-def _proc(fs, pr):
+def _do(fs, db, op):
+    kind = op[0]
+    if kind == "set":
+        db[bytes.fromhex(op[1])] = bytes.fromhex(op[2])
+    elif kind == "del":
+        del db[bytes.fromhex(op[1])]
+    elif kind == "sdf":
+        db.setdefault(bytes.fromhex(op[1]), bytes.fromhex(op[2]))
+    elif kind == "upd":
+        db.update({bytes.fromhex(k): bytes.fromhex(v) for k, v in op[1]})
+    elif kind == "clr":
+        db.clear()
+    elif kind == "setf":
+        fs.fault = (int(op[3]), EXCS[op[4]]())
+        try:
+            db[bytes.fromhex(op[1])] = bytes.fromhex(op[2])
+        finally:
+            fs.fault = None
+    else:
+        raise ValueError(kind)
+
+
+def _proc(c, fs, pr):
     """one process: open (recovery), ops, killed at its cut → per-op results"""
     fs.revive()
+    fs.fault = None
     fs.crash_at = tuple(pr["cut"]) if pr["cut"] is not None else None
     res = []
     try:
-        db = dirdbm.DirDBM(D)
+        db = _cls(c)(_D(c))
         for op in pr["ops"]:
             res.append("crash")
             try:
-                if op[0] == "set":
-                    db[bytes.fromhex(op[1])] = bytes.fromhex(op[2])
-                else:
-                    del db[bytes.fromhex(op[1])]
+                _do(fs, db, op)
                 res[-1] = "ok"
             except KeyError:
                 res[-1] = "KeyError"
+            except fsim.Crash:
+                raise
+            except BaseException as e:
+                if op[0] != "setf" or fs.dead:
+                    raise
+                res[-1] = "fail:" + type(e).__name__      # the injected failure came back to the caller
     except fsim.Crash:
         pass
     return res
@@ -124,12 +286,13 @@ def _execute(c):
 
 def _execute1(c):
     fs = _mkfs(c)
+    D = _D(c)
     results = []
-    with fsim.patched(fs, filepath, dirdbm):
+    with _patched(fs):
         for pr in c["procs"]:
-            results.append(_proc(fs, pr))
+            results.append(_proc(c, fs, pr))
         fs.revive()
-        db = dirdbm.DirDBM(D)
+        db = _cls(c)(D)
         items = []
         for k in universe(c):
             kb = bytes.fromhex(k)
@@ -137,6 +300,10 @@ def _execute1(c):
                 items.append((k, db[kb]))
             except KeyError:
                 items.append((k, None))
+            except (pickle.UnpicklingError, EOFError, ValueError, IndexError, AttributeError, ImportError) as e:
+                if c.get("cls") != "Shelf":
+                    raise
+                items.append((k, "!" + type(e).__name__))        # a partial pickle is visible as data
         try:
             keys = sorted(db.keys())
             nkeys = len(db)
@@ -146,16 +313,43 @@ def _execute1(c):
     return snap, items, results, keys, nkeys, fs
 
 
+def _show_item(c, v):
+    if v is None:
+        return "~"
+    if isinstance(v, str):
+        return v
+    return hx(stored(c, v))
+
+
 def run_impl(c):
+    if "enc" in c:
+        k = bytes.fromhex(c["enc"])
+        db = dirdbm.DirDBM.__new__(dirdbm.DirDBM)
+        return hx(db._encode(k))
     snap, items, results, keys, nkeys, fs = _execute(c)
     st = show_state(snap) if snap is not None else "!no-directory"
-    it = ",".join(f"{_key(k)}={'~' if v is None else hx(v)}" for k, v in items) or "."
+    it = ",".join(f"{_key(k)}={_show_item(c, v)}" for k, v in items) or "."
     rs = "/".join(",".join(r) or "." for r in results)
     return f"{st}|{it}|{rs}"
 
 
+def _oracle_enc(c, out):
+    k = bytes.fromhex(c["enc"])
+    if out != hx(enc(k).encode()):
+        return {"key": "file-name-is-not-the-documented-encoding", "detail": f"key {k!r}: {out} vs {enc(k)!r}"}
+    db = dirdbm.DirDBM.__new__(dirdbm.DirDBM)
+    name = db._encode(k)
+    if db._decode(name) != k:
+        return {"key": "file-name-does-not-decode-to-the-key", "detail": f"key {k!r}: {name!r} → {db._decode(name)!r}"}
+    if b"." in name or b"/" in name or b"\n" in name or not name:
+        return {"key": "file-name-not-a-plain-name", "detail": f"key {k!r}: {name!r}"}
+    return None
+
+
 def oracle(c, out):
     """The property on the real DirDBM, from the operation history alone (no model)."""
+    if "enc" in c:
+        return _oracle_enc(c, out)
     if any(e[0] for e in c["pre"]):
         return None                     # hand-made leftover files: tie only (not a state DirDBM produces)
     try:
@@ -166,23 +360,49 @@ def oracle(c, out):
         return {"key": _keyclass(c) + "reopen-raises", "detail": f"{type(e).__name__}: {e}"}
     # allowed[k] = set of values (None = absent) the history permits
     allowed = {bytes.fromhex(e[1]): {bytes.fromhex(e[2])} for e in c["pre"]}
+    uni = [bytes.fromhex(k) for k in universe(c)]
+
+    def cur(k):
+        return allowed.get(k, {None})
+
     for pr, res in zip(c["procs"], results):
         for op, r in zip(pr["ops"], res):
-            k = bytes.fromhex(op[1])
-            new = bytes.fromhex(op[2]) if op[0] == "set" else None
-            if r == "crash":
-                allowed[k] = allowed.get(k, {None}) | {new}
-            else:
-                if op[0] == "del" and r == "ok" and allowed.get(k, {None}) == {None}:
-                    return {"key": _keyclass(c) + "delete-of-absent-key-succeeded", "detail": f"del {k!r}"}
-                if op[0] == "del" and r == "KeyError" and None not in allowed.get(k, {None}):
-                    return {"key": _keyclass(c) + "delete-of-present-key-keyerror", "detail": f"del {k!r}"}
-                allowed[k] = {new}
+            kind = op[0]
+            done = r == "ok"
+            if kind in ("set", "setf"):
+                # an operation that was interrupted by the crash, or that failed with an exception, is not a
+                # completed operation: its key has its old or its new value
+                k, new = bytes.fromhex(op[1]), bytes.fromhex(op[2])
+                allowed[k] = {new} if done else cur(k) | {new}
+            elif kind == "del":
+                k = bytes.fromhex(op[1])
+                if r == "crash":
+                    allowed[k] = cur(k) | {None}
+                else:
+                    if r == "ok" and cur(k) == {None}:
+                        return {"key": _keyclass(c) + "delete-of-absent-key-succeeded", "detail": f"del {k!r}"}
+                    if r == "KeyError" and None not in cur(k):
+                        return {"key": _keyclass(c) + "delete-of-present-key-keyerror", "detail": f"del {k!r}"}
+                    allowed[k] = {None}
+            elif kind == "sdf":
+                k, new = bytes.fromhex(op[1]), bytes.fromhex(op[2])
+                if done:        # present → untouched; absent → set
+                    allowed[k] = (cur(k) - {None}) | ({new} if None in cur(k) else set())
+                else:
+                    allowed[k] = cur(k) | {new}
+            elif kind == "upd":
+                for kh, vh in op[1]:
+                    k, new = bytes.fromhex(kh), bytes.fromhex(vh)
+                    allowed[k] = {new} if done else cur(k) | {new}
+            elif kind == "clr":
+                for k in set(uni) | set(allowed):
+                    allowed[k] = {None} if done else cur(k) | {None}
     for k, v in items:
         kb = bytes.fromhex(k)
-        if v not in allowed.get(kb, {None}):
+        if v not in cur(kb):
             return {"key": _keyclass(c) + "wrong-value-after-reopen",
-                    "detail": f"key {kb!r} reads {v!r}; history allows {sorted(allowed.get(kb, {None}), key=repr)}"}
+                    "detail": f"key {_short(kb)} reads {_short(v)}; history allows "
+                              f"{sorted((_short(x) for x in cur(kb)))}"}
     present = sorted(bytes.fromhex(k) for k, v in items if v is not None)
     if keys != present or nkeys != len(present):
         return {"key": _keyclass(c) + "stray-visible-as-data", "detail": f"keys()={keys!r} len={nkeys}; present keys {present!r}"}
@@ -192,11 +412,19 @@ def oracle(c, out):
     return None
 
 
+def _short(v):
+    r = repr(v)
+    return r if len(r) <= 60 else f"{r[:40]}…({len(v)} bytes)"
+
+
 def _keyclass(c):
     return ""
 
 
 def tag(c, out):
+    if "enc" in c:
+        n = len(c["enc"]) // 2
+        return f"enc:len%3={n % 3}:lines={min((n + 56) // 57, 4)}:{'b' if n % 57 in (0, 1, 56) else ''}"
     parts = []
     for pr in c["procs"]:
         if pr["cut"] is None:
@@ -205,43 +433,79 @@ def tag(c, out):
             parts.append(f"cut{'+p' if pr['cut'][1] else ''}" + ("" if pr["ops"] else "R"))
     res = out.split("|")[-1] if "|" in out else out
     hit = ""
+    big = False
     for pr, r in zip(c["procs"], res.split("/")):
         rs = r.split(",")
         if "crash" in rs:
             op = pr["ops"][rs.index("crash")]
-            hit = op[0] + ("E" if op[0] == "set" and not op[2] else "")
+            hit = op[0] + ("E" if op[0] in ("set", "sdf") and not op[2] else "")
+        for op in pr["ops"]:
+            if op[0] in ("set", "setf", "sdf") and len(op[2]) > 2000:
+                big = True
     kc = "".join(sorted({("e" if not k else "L" if len(k) > 114 else "s") for k in universe(c)}))
-    return f"{'/'.join(parts[:4])}:{hit}:keys={kc}:strays={'y' if any(e[0] for e in c['pre']) else 'n'}:{'err' if 'KeyError' in res else ''}"
+    fam = "P" if sum(1 for k in universe(c) if k.startswith("4b" * 57)) > 1 else ""
+    dc = "" if c.get("dir", "db") == "db" else "G"
+    return (f"{'/'.join(parts[:4])}:{hit}:keys={kc}{fam}:strays={'y' if any(e[0] for e in c['pre']) else 'n'}:"
+            f"{'err' if 'KeyError' in res else ''}{'F' if 'fail:' in res else ''}{'B' if big else ''}{dc}{(c.get('cls') or '')[:1]}")
 
 
 # ---------------------------------------------------------------------------------------------
 # generation
 
 KEYS = [b"k", b"a", b"key2", b"", b"\xff\xff\xfe", b"\xfb\xf0", b"K" * 57, b"L" * 58, b"x" * 120, b"ab", b"abc", b"abcd"]
+# keys whose file names are prefixes of one another (a full 76-character base64 line + "_" starts the longer ones)
+FAMILY = [b"K" * 57, b"K" * 57 + b"x", b"K" * 58, b"K" * 114, b"K" * 114 + b"yz"]
 VALS = [b"", b"v", b"old", b"new value", b"\x00\xff", b"0123456789abcdef"]
+BIG = [8191, 8192, 8193, 20000, 65537]         # around io.DEFAULT_BUFFER_SIZE, and beyond 64 KiB
+DIRS = ["db[1]", "d*b", "data[ab]", "q?", "x]y["]
 
 
-def _ops(rng, n, keys):
+def _big(rng, n):
+    return bytes(rng.randrange(256) for _ in range(61)) * (n // 61) + b"z" * (n % 61)
+
+
+def _ops(rng, n, keys, rich=True):
     ops = []
-    for _ in range(n):
+    while len(ops) < n:
         k = rng.choice(keys)
-        if rng.random() < 0.7:
+        x = rng.random()
+        if not rich:
+            x *= 0.77
+        if x < 0.55:
             ops.append(["set", k.hex(), rng.choice(VALS).hex()])
-        else:
+        elif x < 0.77:
             ops.append(["del", k.hex()])
+        elif x < 0.85:
+            ops.append(["sdf", k.hex(), rng.choice(VALS).hex()])
+        elif x < 0.95:
+            v = rng.choice(VALS[1:])
+            ops.append(["setf", k.hex(), v.hex(), rng.randrange(len(v) + 1), rng.choice(sorted(EXCS))])
+            if rng.random() < 0.6:      # the process lives on: what it does next to the same key matters
+                ops.append(["del", k.hex()])
+        elif x < 0.98:
+            ks = rng.sample(keys, rng.randint(1, len(keys)))
+            ops.append(["upd", [[kk.hex(), rng.choice(VALS).hex()] for kk in ks]])
+        else:
+            ops.append(["clr"])
     return ops
+
+
+def _with(c, **kw):
+    d = dict(c)
+    d.update(kw)
+    return d
 
 
 def _trace_of(c):
     """primitive trace of the LAST process of c, run uncut (to enumerate its cuts)"""
     fs = _mkfs(c)
-    with fsim.patched(fs, filepath, dirdbm):
+    with _patched(fs):
         for pr in c["procs"][:-1]:
-            _proc(fs, pr)
+            _proc(c, fs, pr)
         last = dict(c["procs"][-1])
         last["cut"] = None
         try:
-            _proc(fs, last)
+            _proc(c, fs, last)
         except Exception:
             pass
         return list(fs.trace)
@@ -263,16 +527,31 @@ def expand(c, rng=None, nested=True):
     """c (last process uncut) → c itself + one case per cut of the last process + nested recovery cuts"""
     yield c
     for cut in _cuts(_trace_of(c)):
-        d = {"pre": c["pre"], "procs": c["procs"][:-1] + [{"ops": c["procs"][-1]["ops"], "cut": cut}]}
+        d = _with(c, procs=c["procs"][:-1] + [{"ops": c["procs"][-1]["ops"], "cut": cut}])
         yield d
         if nested:
             # kill the following recovery at each of its primitives, then again (recovery of the recovery)
-            rec = {"pre": d["pre"], "procs": d["procs"] + [{"ops": [], "cut": None}]}
+            rec = _with(d, procs=d["procs"] + [{"ops": [], "cut": None}])
             rtrace = _trace_of(rec)
             for k in range(len(rtrace)):
-                e = {"pre": d["pre"], "procs": d["procs"] + [{"ops": [], "cut": [k, 0]}]}
+                e = _with(d, procs=d["procs"] + [{"ops": [], "cut": [k, 0]}])
                 yield e
-                yield {"pre": d["pre"], "procs": e["procs"] + [{"ops": [], "cut": [0, 0]}]}
+                yield _with(d, procs=e["procs"] + [{"ops": [], "cut": [0, 0]}])
+
+
+ENC_FIXED = [b"", b"\x00", b"\xfb", b"\xff\xff", b"\xfb\xf0", b"\xff\xf0", b"\xff\xff\xff", b"\xfb\xef\xbe",
+             b"K" * 56, b"K" * 57, b"K" * 58, b"\xff" * 57, b"\xfb" * 58, b"K" * 76, b"K" * 77, b"K" * 113, b"K" * 114,
+             b"K" * 115, b"\xff" * 171, b"K" * 172, b" ", b"\n", b"k\n", b"a.b", b"_", b"-", b"../x"]
+
+
+def _enc_key(rng):
+    n = rng.choice([0, 1, 2, 3, 4, 5, 6, 55, 56, 57, 58, 59, 75, 76, 77, 113, 114, 115, 116, 170, 171, 172, rng.randrange(180)])
+    x = rng.random()
+    if x < 0.4:
+        return bytes(rng.randrange(256) for _ in range(n))
+    if x < 0.7:       # many '+' and '/' in the base64 text
+        return bytes(rng.choice([0xfb, 0xff, 0xef, 0xbe, 0xfe, 0x3e, 0x3f]) for _ in range(n))
+    return bytes(rng.choice(b"abcXYZ019 \n._-/+=") for _ in range(n))
 
 
 def corpus():
@@ -287,29 +566,62 @@ def corpus():
         # the empty key
         {"pre": [["", "6b", "6f6c64"]], "procs": [{"ops": [["set", "", "76"]], "cut": None}]},
         {"pre": [["", "6b", "6f6c64"]], "procs": [{"ops": [["set", "", "76"], ["set", "", "77"], ["del", ""]], "cut": None}]},
+        # a database directory whose name contains glob metacharacters (recovery must still find its leftovers)
+        {"dir": "db[1]", "pre": [["", "6b", "6f6c64"]], "procs": [{"ops": [["set", "6b", "6e6577"], ["set", "61", "31"]], "cut": None}]},
+        {"dir": "d*b", "pre": [["", "6b", "6f6c64"]], "procs": [{"ops": [["set", "6b", "6e6577"]], "cut": None}]},
+        # keys whose file names are prefixes of each other
+        {"pre": [["", "4b" * 57, "31"], ["", "4b" * 57 + "78", "32"], ["", "4b" * 114, "33"]],
+         "procs": [{"ops": [["del", "4b" * 57], ["set", "4b" * 57, "34"], ["del", "4b" * 114]], "cut": None}]},
+        # a set whose write fails (the process lives on), then a delete of the same key
+        {"pre": [["", "6b", "6f6c64"]], "procs": [{"ops": [["setf", "6b", "6e657776616c7565", 3, "KeyboardInterrupt"], ["del", "6b"]], "cut": None}]},
+        {"pre": [["", "6b", "6f6c64"]], "procs": [{"ops": [["setf", "6b", "6e657776616c7565", 8, "OSError"], ["setf", "61", "78", 0, "OSError"]], "cut": None}]},
+        # setdefault / update / clear, and the Shelf subclass
+        {"pre": [["", "6b", "6f6c64"]], "procs": [{"ops": [["sdf", "61", "6e6577"], ["sdf", "6b", "78"], ["upd", [["6b", "32"], ["62", "33"]]], ["clr"]], "cut": None}]},
+        {"cls": "Shelf", "pre": [["", "6b", "6f6c64"]], "procs": [{"ops": [["set", "6b", "6e6577"], ["set", "61", ""], ["sdf", "62", "31"]], "cut": None}]},
     ]
     out = []
     for c in base:
         out += list(expand(c))
+    # a large value replacing a small one (no nested cuts: the lines are long)
+    out += list(expand({"pre": [["", "6b", "6f6c64"]], "procs": [{"ops": [["set", "6b", (bytes(range(256)) * 33).hex()]], "cut": None}]},
+                       nested=False))
+    out += [{"enc": k.hex()} for k in ENC_FIXED]
     return out
 
 
 def generate(rng, tier):
     n = 60 if tier == "quick" else 1000
     for i in range(n):
-        keys = rng.sample(KEYS, rng.choice([1, 2, 3]))
+        pool = FAMILY if rng.random() < 0.2 else KEYS
+        keys = rng.sample(pool, rng.choice([1, 2, 3]))
         pre = []
         for k in keys:
             if rng.random() < 0.5:
                 pre.append(["", k.hex(), rng.choice(VALS).hex()])
         L = rng.choice([1, 2, 3, 5, 8, 12]) if tier == "quick" else rng.choice([1, 3, 8, 12, 25, 40])
         procs = []
+        c = {"pre": pre}
+        if rng.random() < 0.3:
+            c["dir"] = rng.choice(DIRS)
+        if rng.random() < 0.15:
+            c["cls"] = "Shelf"
         if rng.random() < 0.3:      # an earlier generation: ops, crash, (recovery happens when the next process opens)
-            first = {"pre": pre, "procs": [{"ops": _ops(rng, rng.choice([1, 2, 4]), keys), "cut": None}]}
+            first = _with(c, procs=[{"ops": _ops(rng, rng.choice([1, 2, 4]), keys), "cut": None}])
             cuts = _cuts(_trace_of(first))
             procs.append({"ops": first["procs"][0]["ops"], "cut": rng.choice(cuts) if cuts else None})
         procs.append({"ops": _ops(rng, L, keys), "cut": None})
-        yield from expand({"pre": pre, "procs": procs}, rng, nested=(rng.random() < 0.5))
+        yield from expand(_with(c, procs=procs), rng, nested=(rng.random() < 0.5))
+    # large values: at and around the size of the I/O buffer, and beyond 64 KiB
+    for i in range(5 if tier == "quick" else 40):
+        keys = rng.sample(KEYS, 2)
+        pre = [["", k.hex(), rng.choice(VALS).hex()] for k in keys if rng.random() < 0.7]
+        size = BIG[i % len(BIG)]
+        ops = _ops(rng, rng.choice([0, 1]), keys, rich=False)
+        ops.append([rng.choice(["set", "set", "sdf"]), keys[0].hex(), _big(rng, size).hex()])
+        if rng.random() < 0.5:
+            ops.append(["setf", keys[0].hex(), _big(rng, rng.choice(BIG)).hex(), rng.choice([1, 8192, 8193]), rng.choice(sorted(EXCS))])
+            ops.append(["del", keys[0].hex()])
+        yield from expand({"pre": pre, "procs": [{"ops": ops, "cut": None}]}, rng, nested=False)
     # hand-made leftovers (tie of the recovery code on states DirDBM itself never produces)
     for i in range(10 if tier == "quick" else 300):
         keys = rng.sample(KEYS, rng.choice([1, 2, 3]))
@@ -318,26 +630,43 @@ def generate(rng, tier):
             for kind in ("", ".rpl", ".new"):
                 if rng.random() < 0.5:
                     pre.append([kind, k.hex(), rng.choice(VALS).hex()])
-        yield from expand({"pre": pre, "procs": [{"ops": _ops(rng, rng.choice([0, 1, 2]), keys), "cut": None}]}, rng)
+        c = {"pre": pre, "procs": [{"ops": _ops(rng, rng.choice([0, 1, 2]), keys, rich=False), "cut": None}]}
+        if rng.random() < 0.3:
+            c["dir"] = rng.choice(DIRS)
+        yield from expand(c, rng)
+    # the key → file-name encoding on its own
+    for i in range(200 if tier == "quick" else 5000):
+        yield {"enc": _enc_key(rng).hex()}
 
 
 def search(rng, tier, disagreeing):
     for c in disagreeing[:10]:
-        base = {"pre": c["pre"], "procs": c["procs"][:1]}
+        if "enc" in c:
+            continue
+        base = _with(c, procs=c["procs"][:1])
         base["procs"][-1] = {"ops": base["procs"][-1]["ops"], "cut": None}
         yield from expand(base, rng)
     yield from generate(rng, "quick")
 
 
 def shrink(c):
+    if "enc" in c:
+        k = c["enc"]
+        for j in range(0, len(k), 2):
+            yield {"enc": k[:j] + k[j + 2:]}
+        return
     procs = c["procs"]
     for i, pr in enumerate(procs):
         if len(procs) > 1 and pr["cut"] is None:
-            yield {"pre": c["pre"], "procs": procs[:i] + procs[i + 1:]}
+            yield _with(c, procs=procs[:i] + procs[i + 1:])
         for j in range(len(pr["ops"])):
             if pr["cut"] is None:
-                yield {"pre": c["pre"], "procs": procs[:i] + [{"ops": pr["ops"][:j] + pr["ops"][j + 1:], "cut": None}] + procs[i + 1:]}
+                yield _with(c, procs=procs[:i] + [{"ops": pr["ops"][:j] + pr["ops"][j + 1:], "cut": None}] + procs[i + 1:])
     for j in range(len(c["pre"])):
-        yield {"pre": c["pre"][:j] + c["pre"][j + 1:], "procs": procs}
+        yield _with(c, pre=c["pre"][:j] + c["pre"][j + 1:])
     if len(procs) > 1:
-        yield {"pre": c["pre"], "procs": procs[:-1]}
+        yield _with(c, procs=procs[:-1])
+    if c.get("dir", "db") != "db":
+        yield _with(c, dir="db")
+    if c.get("cls"):
+        yield _with(c, cls=None)
